@@ -11,6 +11,18 @@ _ODE_NOTE = ("the strict C reader is trusted for the statement shapes it accepts
 _ODE_TECH = ("TLA+ spec OdeGen.tla model-checked with TLC over all small networks; TLC-chosen and random networks rendered by the real "
              "generator for dense/sparse/cusparse/odeint, read back with a strict C reader and validated event by event by Trace_OdeGen.tla")
 CHECKS = {
+    "C18": dict(level="model_checking", design_ref="DESIGN.md §4 C18, §11",
+        technique="TLA+ spec RoundTrip.tla (write / read / edit / write / read with an abstract printing function) model-checked with TLC; "
+                  "real networks from all formats and the API cycled through the native format, files decoded by an independent "
+                  "reader, exported networks re-read and their rate statements compared with the direct rendering; judged by "
+                  "Trace_RoundTrip.tla",
+        text="TLC checks ReadWriteId, SecondCycleIdempotent and EditsAreWritten for all idempotent printing functions over a small value "
+             "domain; every real cycle must produce the records / networks the specification produces (species with multiplicity, "
+             "coefficients and window at printed precision, type code, index, source tag, byte-identical second file), API edits made "
+             "in between must reach the next file, and each rate statement of the re-read network must equal the direct one or the "
+             "re-rendering must be refused.",
+        note="'same rate law' is decided numerically at 12 parameter points when the two expressions are not the same tree; grain-surface "
+             "laws are left to C11"),
     "C07": dict(level="model_checking", design_ref="DESIGN.md §4 C07, §11",
         technique="TLA+ spec Formats.tla (reader as a state machine over line classes + marker filter + code->type tables) model-checked "
                   "with TLC; files written by independent encoders of the six layouts, read by the real readers, judged by "
